@@ -303,3 +303,341 @@ Proof.
     destruct (ulb_other _ name changed s1 sA Nn EA) as [A _]. rewrite A.
     unfold bm_get. now rewrite Hb.
 Qed.
+
+(** * Working copies follow *)
+
+Lemma maybe_abandon_wcs s ws : v_wcs (s_v (maybe_abandon_wc_commit s ws)) = v_wcs (s_v s).
+Proof.
+  unfold maybe_abandon_wc_commit. destruct (wc_get (s_v s) ws); [|reflexivity].
+  destruct (normalize_fields s) as [_ [_ [_ B]]]. destruct (_ && _ && _); cbn [set_pm s_v]; assumption.
+Qed.
+
+Lemma maybe_abandon_pm s ws k2 :
+  pm_get (s_pm (maybe_abandon_wc_commit s ws)) k2 = pm_get (s_pm s) k2 \/
+  (wc_get (s_v s) ws = Some k2 /\
+   (forall ws2 k', In (ws2, k') (v_wcs (s_v s)) -> ws2 <> ws -> k' <> k2) /\
+   is_abandoned (pm_get (s_pm (maybe_abandon_wc_commit s ws)) k2) = true).
+Proof.
+  unfold maybe_abandon_wc_commit. destruct (wc_get (s_v s) ws) as [w|] eqn:E; [|now left].
+  destruct (normalize_fields s) as [_ [Pm [_ Wc]]].
+  destruct (_ && _ && _) eqn:C; [|left; now rewrite Pm].
+  cbn [set_pm s_pm]. destruct (Nat.eq_dec k2 w) as [->|N].
+  - right. split; [reflexivity|]. split.
+    + apply andb_true_iff in C. destruct C as [C _]. apply andb_true_iff in C. destruct C as [_ C].
+      apply negb_true_iff in C. unfold wc_referenced in C. apply orb_false_iff in C. destruct C as [C _].
+      rewrite Wc in C. intros ws2 k' Hin Nw ->.
+      assert (existsb (fun p : N * nat => negb (N.eqb (fst p) ws) && Nat.eqb (snd p) w) (v_wcs (s_v s)) = true); [|congruence].
+      apply existsb_exists. exists (ws2, w). split; [assumption|]. cbn [fst snd].
+      rewrite Nat.eqb_refl, andb_true_r. apply negb_true_iff. now apply N.eqb_neq.
+    + now rewrite pm_get_set_same.
+  - left. rewrite pm_get_set_other by assumption. now rewrite Pm.
+Qed.
+
+Lemma edit_facts s ws c s' : edit s ws c = Some s' ->
+  wc_get (s_v s') ws = Some c /\
+  (forall ws2, ws2 <> ws -> wc_get (s_v s') ws2 = wc_get (s_v s) ws2) /\
+  (forall ws2 k', In (ws2, k') (v_wcs (s_v s')) -> ws2 <> ws -> In (ws2, k') (v_wcs (s_v s))) /\
+  s_g s' = s_g s /\
+  forall k2, pm_get (s_pm s') k2 = pm_get (s_pm s) k2 \/
+    (wc_get (s_v s) ws = Some k2 /\
+     (forall ws2 k', In (ws2, k') (v_wcs (s_v s)) -> ws2 <> ws -> k' <> k2) /\
+     is_abandoned (pm_get (s_pm s') k2) = true).
+Proof.
+  intros H. pose proof (edit_graph _ _ _ _ H) as G.
+  unfold edit in H. destruct (c =? 0); [discriminate|].
+  assert (E : forall (a b : state), Some a = Some b -> a = b) by (intros a b E0; congruence).
+  apply E in H. subst s'.
+  destruct (add_heads_fields (maybe_abandon_wc_commit s ws) [c]) as [_ [Pm [_ Wc]]].
+  cbn [set_view s_v s_pm v_wcs] in *. unfold wc_get. cbn [v_wcs].
+  rewrite Wc, maybe_abandon_wcs. split; [apply naget_aset_same|]. split; [|split; [|split; [exact G|]]].
+  - intros ws2 N. now apply naget_aset_other.
+  - intros ws2 k' Hin N. apply (aset_In N.eqb N.ltb) in Hin. destruct Hin as [Ei|Hin]; [injection Ei as -> _; congruence|assumption].
+  - intros k2. rewrite Pm. apply maybe_abandon_pm.
+Qed.
+
+Definition uwc_step (acc : res (state * list (nat * nat))) (ch : N * nat * list nat)
+  : res (state * list (nat * nat)) :=
+  do sr <- acc;
+  let '(s1, recreated) := sr in
+  let '(ws, old, nids) := ch in
+  do sw <-
+    (if negb (is_abandoned (pm_get (s_pm s1) old)) then
+       match nids with [] => Panic | n :: _ => Ok (s1, recreated, n) end
+     else match aget Nat.eqb old recreated with
+          | Some c => Ok (s1, recreated, c)
+          | None =>
+              match nids with
+              | [] => Panic
+              | _ =>
+                  let '(s2, n) := write_commit s1 (fresh_commit (s_g s1) nids 0 true) None in
+                  Ok (s2, aset Nat.eqb Nat.ltb old n recreated, n)
+              end
+          end);
+  let '(s2, recreated2, new_wc) := sw in
+  match edit s2 ws new_wc with
+  | Some s3 => Ok (s3, recreated2)
+  | None => Panic
+  end.
+
+Lemma update_wc_commits_eq s mapping :
+  update_wc_commits s mapping =
+  do r <- fold_left uwc_step
+            (flat_map (fun p : N * nat => match aget Nat.eqb (snd p) mapping with
+                                          | Some nids => [(fst p, snd p, nids)]
+                                          | None => []
+                                          end) (v_wcs (s_v s))) (Ok (s, []));
+  Ok (fst r).
+Proof. reflexivity. Qed.
+
+(** What one item does. [Rec] describes the cache of re-created commits. *)
+Definition RecOK (mapping : list (nat * list nat)) (base : nat) (st : state) (rec : list (nat * nat)) : Prop :=
+  forall k c, aget Nat.eqb k rec = Some c ->
+    base <= c < length (s_g st) /\ exists nids, aget Nat.eqb k mapping = Some nids /\
+      c_parents (getc (s_g st) c) = nids /\ c_preds (getc (s_g st) c) = [].
+
+Lemma uwc_item mapping base st rec ws k nids st' rec' :
+  aget Nat.eqb k mapping = Some nids -> RecOK mapping base st rec -> base <= length (s_g st) ->
+  uwc_step (Ok (st, rec)) (ws, k, nids) = Ok (st', rec') ->
+  RecOK mapping base st' rec' /\
+  length (s_g st) <= length (s_g st') /\
+  (forall i, i < length (s_g st) -> getc (s_g st') i = getc (s_g st) i) /\
+  (forall ws2, ws2 <> ws -> wc_get (s_v st') ws2 = wc_get (s_v st) ws2) /\
+  (forall ws2 k', In (ws2, k') (v_wcs (s_v st')) -> ws2 <> ws -> In (ws2, k') (v_wcs (s_v st))) /\
+  (forall k2, pm_get (s_pm st') k2 = pm_get (s_pm st) k2 \/
+     (wc_get (s_v st) ws = Some k2 /\
+      (forall ws2 k', In (ws2, k') (v_wcs (s_v st)) -> ws2 <> ws -> k' <> k2) /\
+      is_abandoned (pm_get (s_pm st') k2) = true)) /\
+  (forall k0 c, aget Nat.eqb k0 rec = Some c -> aget Nat.eqb k0 rec' = Some c) /\
+  exists new_wc, wc_get (s_v st') ws = Some new_wc /\
+    if is_abandoned (pm_get (s_pm st) k)
+    then aget Nat.eqb k rec' = Some new_wc
+    else new_wc = hd 0 nids.
+Proof.
+  intros Hk HR Hbase H. unfold uwc_step in H. cbn [bind] in H.
+  destruct (negb (is_abandoned (pm_get (s_pm st) k))) eqn:Ab.
+  - (* not abandoned: first of the resolution *)
+    apply negb_true_iff in Ab. rewrite Ab.
+    destruct nids as [|n ns]; [discriminate|]. cbn [bind] in H.
+    destruct (edit st ws n) as [s3|] eqn:EE; [|discriminate]. apply Ok_inj in H. injection H as <- <-.
+    destruct (edit_facts _ _ _ _ EE) as [A [B [B2 [G C]]]].
+    split; [|split; [rewrite G; lia|split; [intros i _; now rewrite G|split; [exact B|split; [exact B2|split; [exact C|split; [auto|]]]]]]].
+    + intros k0 c Hc. destruct (HR k0 c Hc) as [L R]. rewrite G. auto.
+    + exists n. split; [exact A|reflexivity].
+  - apply negb_false_iff in Ab. rewrite Ab.
+    destruct (aget Nat.eqb k rec) as [c|] eqn:ER.
+    + cbn [bind] in H. destruct (edit st ws c) as [s3|] eqn:EE; [|discriminate]. apply Ok_inj in H. injection H as <- <-.
+      destruct (edit_facts _ _ _ _ EE) as [A [B [B2 [G C]]]].
+      split; [|split; [rewrite G; lia|split; [intros i _; now rewrite G|split; [exact B|split; [exact B2|split; [exact C|split; [auto|]]]]]]].
+      * intros k0 c0 Hc. destruct (HR k0 c0 Hc) as [L R]. rewrite G. auto.
+      * exists c. split; [exact A|exact ER].
+    + destruct nids as [|n ns]; [discriminate|]. set (nids := n :: ns) in *.
+      destruct (write_commit_fields st (fresh_commit (s_g st) nids 0 true) None) as [Gw Pw].
+      destruct (write_commit_view st (fresh_commit (s_g st) nids 0 true) None) as [_ [Ww _]].
+      assert (Nw : snd (write_commit st (fresh_commit (s_g st) nids 0 true) None) = length (s_g st)) by reflexivity.
+      destruct (write_commit st (fresh_commit (s_g st) nids 0 true) None) as [sw nw] eqn:EW.
+      cbn [fst snd] in *. subst nw. cbn [bind] in H.
+      destruct (edit sw ws (length (s_g st))) as [s3|] eqn:EE; [|discriminate]. apply Ok_inj in H. injection H as <- <-.
+      destruct (edit_facts _ _ _ _ EE) as [A [B [B2 [G C]]]].
+      assert (Lw : length (s_g sw) = S (length (s_g st))) by (rewrite Gw, app_length; cbn; lia).
+      split; [|split; [rewrite G; lia|split; [|split; [|split; [|split; [|split]]]]]].
+      * intros k0 c0 Hc. rewrite G. destruct (Nat.eq_dec k0 k) as [->|Nk].
+        -- rewrite aget_aset_same in Hc. injection Hc as <-. split; [lia|].
+           exists nids. split; [assumption|]. rewrite Gw, getc_app_new. cbn. auto.
+        -- rewrite aget_aset_other in Hc by assumption. destruct (HR k0 c0 Hc) as [L [ns' [M [P1 P2]]]].
+           split; [lia|]. exists ns'. split; [assumption|]. rewrite Gw, getc_app_old by lia. auto.
+      * intros i Hi. rewrite G, Gw. now apply getc_app_old.
+      * intros ws2 N. rewrite (B ws2 N). unfold wc_get. now rewrite Ww.
+      * intros ws2 k' Hin N. rewrite <- Ww. now apply B2.
+      * intros k2. destruct (C k2) as [C1|[C1 [C2 C3]]].
+        -- left. now rewrite C1, Pw.
+        -- right. unfold wc_get in C1. rewrite Ww in C1. split; [exact C1|]. split; [|exact C3].
+           intros ws2 k' Hin. apply C2. now rewrite Ww.
+      * intros k0 c0 Hc. destruct (Nat.eq_dec k0 k) as [->|Nk]; [congruence|].
+        now rewrite aget_aset_other.
+      * exists (length (s_g st)). split; [exact A|]. apply aget_aset_same.
+Qed.
+
+Lemma uwc_step_stuck l : forall r, (forall a, r <> Ok a) -> forall a, fold_left uwc_step l r <> Ok a.
+Proof.
+  intros r N a. apply fold_res_stuck; try reflexivity. exact N.
+Qed.
+
+Lemma uwc_fold mapping base l : forall st rec st' rec',
+  (forall ws k nids, In (ws, k, nids) l -> aget Nat.eqb k mapping = Some nids) ->
+  NoDup (map (fun x : N * nat * list nat => fst (fst x)) l) ->
+  RecOK mapping base st rec -> base <= length (s_g st) ->
+  (forall ws k nids, In (ws, k, nids) l -> wc_get (s_v st) ws = Some k) ->
+  fold_left uwc_step l (Ok (st, rec)) = Ok (st', rec') ->
+  RecOK mapping base st' rec' /\
+  length (s_g st) <= length (s_g st') /\
+  (forall i, i < length (s_g st) -> getc (s_g st') i = getc (s_g st) i) /\
+  (forall ws2, ~ In ws2 (map (fun x : N * nat * list nat => fst (fst x)) l) ->
+     wc_get (s_v st') ws2 = wc_get (s_v st) ws2) /\
+  (forall k0 c, aget Nat.eqb k0 rec = Some c -> aget Nat.eqb k0 rec' = Some c) /\
+  forall ws k nids, In (ws, k, nids) l ->
+    exists c, wc_get (s_v st') ws = Some c /\
+      if is_abandoned (pm_get (s_pm st) k) then aget Nat.eqb k rec' = Some c else c = hd 0 nids.
+Proof.
+  induction l as [|[[ws k] nids] t IH]; intros st rec st' rec' HM ND HR Hbase HP H; cbn [fold_left] in H.
+  - apply Ok_inj in H. injection H as <- <-.
+    split; [assumption|]. split; [lia|]. split; [auto|]. split; [auto|]. split; [auto|]. intros ? ? ? [].
+  - destruct (uwc_step (Ok (st, rec)) (ws, k, nids)) as [[st1 rec1]| | |] eqn:E1.
+    2,3,4: exfalso; eapply (uwc_step_stuck t); [|exact H]; discriminate.
+    cbn [map fst] in ND. inversion ND as [|? ? Hn Hd]; subst.
+    destruct (uwc_item mapping base st rec ws k nids st1 rec1 (HM _ _ _ (or_introl eq_refl)) HR Hbase E1)
+      as [HR1 [L1 [O1 [W1 [W2 [P1 [R1 [c1 [C1 C2]]]]]]]]].
+    assert (HP1 : forall ws2 k2 n2, In (ws2, k2, n2) t -> wc_get (s_v st1) ws2 = Some k2).
+    { intros ws2 k2 n2 Hin. rewrite W1; [apply (HP ws2 k2 n2); now right|].
+      intros ->. apply Hn. apply in_map_iff. exists (ws, k2, n2). auto. }
+    destruct (IH st1 rec1 st' rec' (fun a b c Hi => HM a b c (or_intror Hi)) Hd HR1 ltac:(lia) HP1 H)
+      as [HR' [L' [O' [W' [R' F']]]]].
+    split; [exact HR'|]. split; [lia|]. split; [intros i Hi; rewrite O' by lia; now apply O1|].
+    split; [|split; [auto|]].
+    + intros ws2 Hn2. cbn [map fst In] in Hn2. rewrite W' by tauto. apply W1. intros ->. apply Hn2. now left.
+    + intros ws2 k2 n2 [E|Hin].
+      * injection E as <- <- <-. exists c1. split.
+        -- rewrite W' by assumption. exact C1.
+        -- destruct (is_abandoned (pm_get (s_pm st) k)); [now apply R'|assumption].
+      * destruct (F' ws2 k2 n2 Hin) as [c [A B]]. exists c. split; [assumption|].
+        assert (Nw : ws2 <> ws).
+        { intros ->. apply Hn. apply in_map_iff. exists (ws, k2, n2). auto. }
+        assert (Ek : pm_get (s_pm st1) k2 = pm_get (s_pm st) k2).
+        { destruct (P1 k2) as [Q|[Q1 [Q2 _]]]; [assumption|]. exfalso.
+          apply (Q2 ws2 k2); [|assumption|reflexivity].
+          apply (aget_In N.eqb Neqb_spec). apply (HP ws2 k2 n2). now right. }
+        now rewrite <- Ek.
+Qed.
+
+Lemma rebase_one_wcs st o x st' : rebase_one st o x = Ok st' -> v_wcs (s_v st') = v_wcs (s_v st).
+Proof.
+  unfold rebase_one. destruct (new_parents _ _) as [np| | |]; cbn [bind]; try discriminate.
+  destruct (list_nat_eqb _ _); [intros H; apply Ok_inj in H; now subst|].
+  match goal with |- (if ?c then _ else _) = _ -> _ => destruct c end; intros H; apply Ok_inj in H; subst st'.
+  - reflexivity.
+  - apply write_commit_view.
+Qed.
+
+Lemma rebase_fold_wcs o order : forall st st', rebase_fold o order st = Ok st' -> v_wcs (s_v st') = v_wcs (s_v st).
+Proof.
+  unfold rebase_fold. intros st st' H.
+  refine (fold_res_inv (fun s x => rebase_one s o x) (fun s => v_wcs (s_v s) = v_wcs (s_v st)) order _ st st' eq_refl H).
+  intros a b a' Pa _ Hf. rewrite <- Pa. eapply rebase_one_wcs; eassumption.
+Qed.
+
+Lemma set_local_bookmark_fields s name t :
+  v_wcs (s_v (set_local_bookmark_target s name t)) = v_wcs (s_v s) /\
+  s_pm (set_local_bookmark_target s name t) = s_pm s /\
+  s_g (set_local_bookmark_target s name t) = s_g s.
+Proof.
+  unfold set_local_bookmark_target. cbn [set_view s_v s_pm s_g v_wcs].
+  destruct (fold_add_head_fields (added_ids t) (s_v s)) as [_ [B _]]. auto.
+Qed.
+
+Lemma update_local_bookmarks_fields st mapping del st' :
+  update_local_bookmarks st mapping del = Ok st' ->
+  v_wcs (s_v st') = v_wcs (s_v st) /\ s_pm st' = s_pm st /\ s_g st' = s_g st.
+Proof.
+  unfold update_local_bookmarks. intros H.
+  refine (fold_res_inv (fun (s1 : state) (ch : N * nat * list nat) => _)
+            (fun s => v_wcs (s_v s) = v_wcs (s_v st) /\ s_pm s = s_pm st /\ s_g s = s_g st) _ _ st st' (conj eq_refl (conj eq_refl eq_refl)) H).
+  intros a [[name old] nids] a' [A [B C]] _ Hf. cbv beta iota in Hf.
+  assert (M : forall other, let a2 := merge_local_bookmark a name [Some old] other in
+               v_wcs (s_v a2) = v_wcs (s_v st) /\ s_pm a2 = s_pm st /\ s_g a2 = s_g st).
+  { intros other. unfold merge_local_bookmark. cbv zeta.
+    destruct (set_local_bookmark_fields a name (merge_ref_targets (pg (s_g a)) (bm_get (s_v a) name) [Some old] other)) as [X [Y Z]].
+    rewrite X, Y, Z. auto. }
+  destruct (del && is_abandoned (pm_get (s_pm a) old)).
+  - apply Ok_inj in Hf. subst a'. apply M.
+  - destruct nids; [discriminate|]. apply Ok_inj in Hf. subst a'. apply M.
+Qed.
+
+Lemma update_heads_wcs st : v_wcs (s_v (update_heads st)) = v_wcs (s_v st).
+Proof.
+  unfold update_heads.
+  match goal with |- v_wcs (s_v (normalize ?X)) = _ => destruct (normalize_fields X) as [_ [_ [_ B]]]; rewrite B end.
+  reflexivity.
+Qed.
+
+(** Working copies follow (any ordering function, any records; workspace names are distinct):
+    a workspace whose working-copy commit [k] has no rewrite record keeps it; with a record
+    that is not "abandoned" it moves to the first commit of the full resolution of [k]; with an
+    abandoned record it moves to a new commit without predecessor whose parents are the full
+    resolution of [k]. *)
+Theorem wc_follows_model s0 o ord s' :
+  NoDup (map fst (v_wcs (s_v s0))) ->
+  rebase_descendants_with ord s0 o = Ok s' ->
+  exists s1 mapping, rebase_loop_with ord s0 o = Ok s1 /\
+    resolve_rewrite_mapping (s_pm s1) (fun _ => true) = Ok mapping /\
+    forall ws k, aget N.eqb ws (v_wcs (s_v s0)) = Some k ->
+      match aget Nat.eqb k mapping with
+      | Some nids =>
+          rewritten_ids_with (s_pm s1) (fun _ => true) [k] = Ok nids /\
+          exists c, wc_get (s_v s') ws = Some c /\
+            if is_abandoned (pm_get (s_pm s1) k)
+            then length (s_g s1) <= c /\ c_parents (getc (s_g s') c) = nids /\ c_preds (getc (s_g s') c) = []
+            else c = hd 0 nids
+      | None => wc_get (s_v s') ws = Some k
+      end.
+Proof.
+  intros ND H. unfold rebase_descendants_with in H.
+  destruct (rebase_loop_with ord s0 o) as [s1| | |] eqn:EL; cbn [bind] in H; try discriminate.
+  destruct (update_rewritten_references s1 (o_delete_abandoned o)) as [s2| | |] eqn:EU; cbn [bind] in H; try discriminate.
+  apply Ok_inj in H. subst s'. cbn [set_pm s_v s_g].
+  unfold update_rewritten_references in EU.
+  destruct (resolve_rewrite_mapping (s_pm s1) (fun _ => true)) as [mapping| | |] eqn:EM; cbn [bind] in EU; try discriminate.
+  destruct (update_local_bookmarks s1 mapping (o_delete_abandoned o)) as [sA| | |] eqn:EA; cbn [bind] in EU; try discriminate.
+  destruct (update_wc_commits sA mapping) as [sB| | |] eqn:EB; cbn [bind] in EU; try discriminate.
+  apply Ok_inj in EU. subst s2.
+  exists s1, mapping. split; [reflexivity|]. split; [exact EM|].
+  assert (W1 : v_wcs (s_v s1) = v_wcs (s_v s0)).
+  { unfold rebase_loop_with in EL. destruct (ord _ _ _) as [order| | |]; cbn [bind] in EL; try discriminate.
+    eapply rebase_fold_wcs; eassumption. }
+  destruct (update_local_bookmarks_fields _ _ _ _ EA) as [WA [PA GA]].
+  rewrite update_wc_commits_eq in EB.
+  set (F := fun p : N * nat => match aget Nat.eqb (snd p) mapping with
+                                | Some nids => [(fst p, snd p, nids)]
+                                | None => []
+                                end) in *.
+  destruct (fold_left uwc_step (flat_map F (v_wcs (s_v sA))) (Ok (sA, []))) as [[sf rec]| | |] eqn:EF;
+    cbn [bind] in EB; try discriminate.
+  apply Ok_inj in EB. cbn [fst] in EB. subst sB.
+  rewrite WA, W1 in EF.
+  assert (HMl : forall ws k nids, In (ws, k, nids) (flat_map F (v_wcs (s_v s0))) ->
+                  aget Nat.eqb k mapping = Some nids /\ In (ws, k) (v_wcs (s_v s0))).
+  { intros ws k nids Hin. apply in_flat_map in Hin. destruct Hin as [[w c] [Hin1 Hin2]]. unfold F in Hin2.
+    cbn [fst snd] in Hin2. destruct (aget Nat.eqb c mapping) eqn:E; [|contradiction].
+    destruct Hin2 as [Hin2|[]]. injection Hin2 as <- <- <-. auto. }
+  assert (Hget : forall ws k, In (ws, k) (v_wcs (s_v s0)) -> aget N.eqb ws (v_wcs (s_v s0)) = Some k).
+  { clear -ND. induction (v_wcs (s_v s0)) as [|[a b] l IH]; intros ws k Hin; [contradiction|].
+    cbn [map fst] in ND. inversion ND as [|? ? Hn Hd]; subst. cbn [aget].
+    destruct Hin as [Hin|Hin].
+    - injection Hin as -> ->. now rewrite N.eqb_refl.
+    - destruct (N.eqb ws a) eqn:E; [|auto]. apply N.eqb_eq in E. subst a. exfalso. apply Hn.
+      apply in_map_iff. exists (ws, k). auto. }
+  assert (NDl : NoDup (map (fun x : N * nat * list nat => fst (fst x)) (flat_map F (v_wcs (s_v s0))))).
+  { clear -ND. induction (v_wcs (s_v s0)) as [|[a b] l IH]; [constructor|].
+    cbn [map fst] in ND. inversion ND as [|? ? Hn Hd]; subst. cbn [flat_map]. unfold F at 1. cbn [fst snd].
+    destruct (aget Nat.eqb b mapping); [|now apply IH]. cbn [app map fst]. constructor; [|now apply IH].
+    intros Hin. apply in_map_iff in Hin. destruct Hin as [[[w k] n] [E Hin]]. cbn [fst] in E. subst w.
+    apply in_flat_map in Hin. destruct Hin as [[w c] [Hin1 Hin2]]. unfold F in Hin2. cbn [fst snd] in Hin2.
+    destruct (aget Nat.eqb c mapping); [|contradiction]. destruct Hin2 as [Hin2|[]]. injection Hin2 as -> _ _.
+    apply Hn. apply in_map_iff. exists (a, c). auto. }
+  assert (HP : forall ws k nids, In (ws, k, nids) (flat_map F (v_wcs (s_v s0))) -> wc_get (s_v sA) ws = Some k).
+  { intros ws k nids Hin. unfold wc_get. rewrite WA, W1. apply Hget. apply (HMl _ _ _ Hin). }
+  destruct (uwc_fold mapping (length (s_g sA)) _ sA [] sf rec (fun a b c Hi => proj1 (HMl a b c Hi)) NDl
+              (fun k c Hc => ltac:(discriminate)) (le_n _) HP EF) as [HR [L [O [Wn [_ Fo]]]]].
+  intros ws k Hb. unfold wc_get. rewrite update_heads_wcs, update_heads_graph. fold (wc_get (s_v sf) ws).
+  destruct (aget Nat.eqb k mapping) as [nids|] eqn:Ek.
+  - split; [apply (resolve_mapping_spec _ _ _ EM k nids Ek)|].
+    assert (Hin : In (ws, k, nids) (flat_map F (v_wcs (s_v s0)))).
+    { apply in_flat_map. exists (ws, k). split; [now apply (aget_In N.eqb Neqb_spec)|].
+      unfold F. cbn [fst snd]. rewrite Ek. now left. }
+    destruct (Fo ws k nids Hin) as [c [A B]]. exists c. split; [exact A|]. rewrite PA in B.
+    destruct (is_abandoned (pm_get (s_pm s1) k)); [|exact B].
+    destruct (HR k c B) as [Lc [ns [M [P1 P2]]]]. rewrite Ek in M. injection M as <-.
+    split; [rewrite <- GA; lia|split; assumption].
+  - rewrite Wn.
+    + unfold wc_get. rewrite WA, W1. exact Hb.
+    + intros Hin. apply in_map_iff in Hin. destruct Hin as [[[w k'] n] [E Hin]]. cbn [fst] in E. subst w.
+      destruct (HMl _ _ _ Hin) as [M Hin2]. rewrite (Hget _ _ Hin2) in Hb. injection Hb as ->. congruence.
+Qed.
